@@ -173,7 +173,10 @@ def run_case(spec, d):
     try:
         ds = parse(spec, path)
     except Exception as e:
-        return [("parse-fails:" + type(e).__name__, "%s: %s [%s]" % (type(e).__name__, str(e)[:120], ctx))]
+        import re
+        slug = "-".join(re.sub(r"'[^']*'|[^A-Za-z ]", " ", str(e)).lower().split()[:4])
+        return [("parse-fails:%s:%s" % (type(e).__name__, slug),
+                 "%s: %s [%s]" % (type(e).__name__, str(e)[:120], ctx))]
     finally:
         try:
             path.unlink()
